@@ -32,7 +32,8 @@ try:
         r = subprocess.run(["patch", "-p1", "-d", tmp, "-i", os.path.abspath(a.patch)], capture_output=True, text=True)
         if r.returncode:
             print("PATCH DOES NOT APPLY", r.stdout, r.stderr); sys.exit(3)
-    env = dict(os.environ, NFCPY_SRC=tmp + "/src", VERIF_SEED=a.seed)
+    env = dict(os.environ, NFCPY_SRC=tmp + "/src", VERIF_SEED=a.seed,
+               VERIF_EVIDENCE_DIR=tmp + "/evidence")
     cmd = ["/verif/check", a.prop, "--tier", a.tier] + (["--leg", a.leg] if a.leg else [])
     r = subprocess.run(cmd, env=env, capture_output=True, text=True)
     out = (r.stdout + r.stderr).strip().splitlines()
